@@ -168,14 +168,19 @@ func vMergeStats(c *vCtx, scn string, model string, bound int, st *vExploreStats
 
 // vSchedRun explores a list of scenarios with the tier's bounds.
 func vSchedRun(c *vCtx, prop string, scns []vScn) {
-	type plan struct {
-		model string
-		bound int
-	}
-	plans := []plan{{"D", 2}}
+	vSchedRunPlans(c, prop, scns, []vPlan{{"D", 2}}, []vPlan{{"D", 3}, {"P", 2}})
+}
+
+type vPlan struct {
+	model string
+	bound int
+}
+
+func vSchedRunPlans(c *vCtx, prop string, scns []vScn, quick, thorough []vPlan) {
+	plans := quick
 	budget := 5 * time.Minute
 	if c.thorough() {
-		plans = []plan{{"D", 3}, {"P", 2}}
+		plans = thorough
 		budget = 40 * time.Minute
 	}
 	per := budget / time.Duration(len(scns)*len(plans))
